@@ -32,7 +32,8 @@ Empty == [scen |-> "", engine |-> "", srcs |-> {}, feats |-> {}, maxRetries |-> 
           restartCheck |-> FALSE, storeFaults |-> FALSE, bad |-> FALSE]
 
 Init == l = 1 /\ st = Empty /\ viol = {}
-V(inv, what) == [inv |-> inv, at |-> Ev.n, scen |-> st.scen, what |-> what]
+\* what is rendered as a string: the records of one scenario form a set, and TLC cannot compare values of different types
+V(inv, what) == [inv |-> inv, at |-> Ev.n, scen |-> st.scen, what |-> ToString(what)]
 Add(cond, inv, what) == IF cond THEN {} ELSE {V(inv, what)}
 Get(f, k) == IF k \in DOMAIN f THEN f[k] ELSE 0
 Put(f, k, v) == IF k \in DOMAIN f THEN [f EXCEPT ![k] = v] ELSE f @@ (k :> v)
